@@ -139,4 +139,22 @@ def limitPercent (total : Nat) (p : FVal) : Option Nat :=
     | .negz => some 0
     | _ => none
 
+/-! ### a reference ORDER BY (stable insertion sort by `lt`)
+
+  The code hands `SortValues.Less` to Go's `sort.Sort`, whose algorithm (pdqsort, unstable) is outside the
+  model.  `sortBy` is the reference: `Csvq.C07.sorted_perm_keys_unique` shows that EVERY sorted permutation of
+  the rows — whatever algorithm produced it — carries the same sequence of sort keys as `sortBy`'s. -/
+
+def insertBy {α} (lt : α → α → Bool) (x : α) : List α → List α
+  | [] => [x]
+  | y :: ys => if lt y x then y :: insertBy lt x ys else x :: y :: ys
+
+def sortBy {α} (lt : α → α → Bool) : List α → List α
+  | [] => []
+  | x :: xs => insertBy lt x (sortBy lt xs)
+
+/-- ORDER BY of the model: rows carry their sort values -/
+def orderBy (its : List OrdItem) (rows : List (List SortVal)) : List (List SortVal) :=
+  sortBy (rowsLess its) rows
+
 end Csvq
